@@ -17,7 +17,7 @@ use std::path::{Path, PathBuf};
 use fbh::gal::*;
 use fbh::mapmodel::*;
 use fbh::prng::Rng;
-use fbh::report::{guarded, Report};
+use fbh::report::{crumb, guarded, Report};
 use fbh::Ctx;
 use quill::tree::mappings::Mappings;
 
@@ -30,7 +30,7 @@ pub mod download { pub mod versions_manifest {
 	pub(crate) struct MinecraftVersion(pub(crate) String);
 } }
 mod version_graph { include!(concat!(env!("FBH_REPO"), "/src/version_graph.rs")); }
-use version_graph::{Split, VersionGraph};
+use version_graph::{map_shortcut, Split, VersionGraph};
 
 mod tdiff;
 
@@ -153,6 +153,8 @@ struct Tables {
 	quill: Vec<QM>,                               // id -> the quill value first seen with that canonical form
 	tiny: BTreeMap<u64, u64>, contract: BTreeMap<u64, u64>, diff_ok: BTreeSet<u64>,
 	apply: BTreeMap<(u64, u64), u64>, extend: BTreeMap<u64, u64>,
+	/// content token -> the diff it parses to (Debug text; equal texts = equal diffs, IndexMap order included)
+	diff_dbg: BTreeMap<u64, String>,
 	capped: bool,
 }
 impl Tables {
@@ -178,7 +180,7 @@ impl Tables {
 				t.tiny.insert(tok as u64, i);
 				if let Ok(Ok(cq)) = guarded(AssertUnwindSafe(|| q.contract_inner_class_names("named"))) { let j = t.intern(&cq); t.contract.insert(i, j); start.push(j); }
 			}
-			if let Ok(Ok(d)) = guarded(AssertUnwindSafe(|| quill::tiny_v2_diff::read_file(&p))) { t.diff_ok.insert(tok as u64); diffs.push((tok as u64, d)); }
+			if let Ok(Ok(d)) = guarded(AssertUnwindSafe(|| quill::tiny_v2_diff::read_file(&p))) { t.diff_ok.insert(tok as u64); t.diff_dbg.insert(tok as u64, format!("{d:?}")); diffs.push((tok as u64, d)); }
 		}
 		// closure of the contracted roots under every diff, to the depth of the longest possible path
 		let mut frontier: Vec<u64> = start.clone(); frontier.sort(); frontier.dedup();
@@ -231,6 +233,12 @@ struct Obs {
 	children: Vec<Vec<usize>>, parents: Vec<Vec<usize>>,
 	gets: Vec<(String, Option<(u8, usize)>)>,
 	applies: Vec<(String, Option<QM>)>,
+	/// get_all(names) -> the answers in order, None = Err
+	getalls: Vec<(Vec<String>, Option<Vec<(u8, usize)>>)>,
+	/// get_diff(parent, node) for every pair of nodes: Err(()) = error, Ok(None) = no edge, Ok(Some(debug text of the diff))
+	getdiffs: Vec<(usize, usize, Result<Option<String>, ()>)>,
+	/// the small accessors around VersionEntry judged on the spot (text = what is wrong)
+	api_issues: Vec<String>,
 }
 /// Ok(None) = resolve returned an error; Err = a panic
 fn observe(dir: &Path, queries: &[String]) -> Result<Option<Obs>, String> {
@@ -256,7 +264,44 @@ fn observe(dir: &Path, queries: &[String]) -> Result<Option<Obs>, String> {
 				}
 			}
 		}
-		Some(Obs { nodes, root, rootmap: rootmap.expect("no node is the root"), children, parents, gets, applies })
+		// ---- get_all: the empty list, every known name at once, every adjacent pair of queries
+		let code = |split: Split| -> u8 { match split { Split::None => 0, Split::First => 1, Split::Second => 2 } };
+		let mut lists: Vec<Vec<String>> = vec![vec![], gets.iter().filter(|g| g.1.is_some()).map(|g| g.0.clone()).collect()];
+		for w in queries.windows(2).take(8) { lists.push(w.to_vec()); }
+		if let Some(q) = queries.first() { lists.push(vec![q.clone(), q.clone()]); }
+		let getalls = lists.into_iter().map(|l| { let a = g.get_all(l.iter()).ok().map(|v| v.into_iter().map(|(s, e)| (code(s), index(e.as_str()))).collect()); (l, a) }).collect();
+		// ---- get_diff of every pair of nodes
+		let entries: Vec<_> = g.versions().collect();
+		let mut getdiffs = vec![];
+		for (a, ea) in entries.iter().enumerate() { for (b, eb) in entries.iter().enumerate() {
+			getdiffs.push((a, b, match g.get_diff(*ea, *eb) { Err(_) => Err(()), Ok(None) => Ok(None), Ok(Some(d)) => Ok(Some(format!("{d:?}"))) }));
+		} }
+		// ---- the small accessors: equality and hash go by the version string, owned copies, name suffixes, dot output
+		let mut api_issues = vec![];
+		let hash_of = |e: &version_graph::VersionEntry<'_>| { use std::hash::{Hash, Hasher}; let mut h = std::collections::hash_map::DefaultHasher::new(); e.hash(&mut h); h.finish() };
+		for (a, ea) in entries.iter().enumerate() {
+			for (b, eb) in entries.iter().enumerate() {
+				if (ea == eb) != (a == b) { api_issues.push(format!("VersionEntry == of nodes {a} and {b} is {}", ea == eb)); }
+				if a == b && hash_of(ea) != hash_of(eb) { api_issues.push(format!("VersionEntry hash of node {a} differs from itself")); }
+			}
+			let owned = ea.make_owned();
+			let back = owned.make_borrowed();
+			if back != *ea || back.as_str() != ea.as_str() || back.depth() != ea.depth() || hash_of(&back) != hash_of(ea) { api_issues.push(format!("make_owned/make_borrowed changes node {a}")); }
+			let name = ea.as_str();
+			let (want_v, want_e) = if let Some(w) = name.strip_suffix("-client") { (w, version_graph::Environment::Client) }
+				else if let Some(w) = name.strip_suffix("-server") { (w, version_graph::Environment::Server) } else { (name, version_graph::Environment::Merged) };
+			if ea.get_environment() != want_e { api_issues.push(format!("get_environment of {name:?} is {:?}", ea.get_environment())); }
+			if !(download::versions_manifest::MinecraftVersion(want_v.to_owned()) == ea.get_minecraft_version()) { api_issues.push(format!("get_minecraft_version of {name:?} is {:?}", ea.get_minecraft_version())); }
+			if download::versions_manifest::MinecraftVersion(format!("{want_v}x")) == ea.get_minecraft_version() { api_issues.push(format!("get_minecraft_version of {name:?} equals a different version")); }
+		}
+		let mut dot = vec![];
+		match g.write_as_dot(&mut dot) {
+			Err(_) => api_issues.push("write_as_dot failed".into()),
+			Ok(()) => { let t = String::from_utf8_lossy(&dot); if t.matches(" -> ").count() != children.iter().map(|c: &Vec<usize>| c.len()).sum::<usize>() { api_issues.push("write_as_dot does not list one arrow per edge".into()); } }
+		}
+		g.write();
+		for q in queries { let l = map_shortcut(q); if map_shortcut(l) != l { api_issues.push(format!("map_shortcut is not idempotent on {q:?}")); } }
+		Some(Obs { nodes, root, rootmap: rootmap.expect("no node is the root"), children, parents, gets, applies, getalls, getdiffs, api_issues })
 	}))
 }
 
@@ -265,13 +310,15 @@ fn observe(dir: &Path, queries: &[String]) -> Result<Option<Obs>, String> {
 // =====================================================================================
 fn version_name(rng: &mut Rng, i: usize, tricky: bool) -> String {
 	if tricky {
-		match rng.below(7) {
+		match rng.below(10) {
 			0 => format!("x{i}.tiny"), 1 => format!("v{i}.tinydiff"), 2 => format!("ü{i}"), 3 => format!("a{i}~b{i}~c{i}"),
-			4 => format!("{i}~"), 5 => format!("~{i}"), _ => format!("1.{i} pre"),
+			4 => format!("{i}~"), 5 => format!("~{i}"), 6 => format!("\u{1F600}{i}\u{10400}"), 7 => format!("1.{i}\u{2003}pre\u{0660}"),
+			8 => format!("{i}.tiny~s{i}.tinydiff"), _ => format!("1.{i} pre"),
 		}
 	} else {
 		match rng.below(7) {
-			0 | 1 => format!("1.{i}"), 2 => format!("b1.{i}_0{i}"), 3 => format!("1{i}w0{i}a"),
+			0 => format!("1.{i}"), 1 => match rng.below(4) { 0 => format!("b1.{i}-client"), 1 => format!("b1.{i}-server"), _ => format!("1.{i}") },
+			2 => format!("b1.{i}_0{i}"), 3 => format!("1{i}w0{i}a"),
 			4 => format!("1.{i}~server-0.{i}"), _ => format!("a1.{i}~s0.{i}"),
 		}
 	}
@@ -279,7 +326,7 @@ fn version_name(rng: &mut Rng, i: usize, tricky: bool) -> String {
 
 struct Shape { n: usize, edges: Vec<(usize, usize)>, tree_parent: Vec<Option<usize>>, kind: &'static str }
 fn gen_shape(rng: &mut Rng) -> Shape {
-	let n = rng.range(1, 7);
+	let n = if rng.chance(1, 12) { rng.range(8, 10) } else { rng.range(1, 7) };
 	let which = rng.below(10);
 	let mut edges = vec![]; let mut tree_parent = vec![None; n];
 	for i in 1..n {
@@ -316,7 +363,7 @@ fn transports(store: &Path, text: &str, a: &MMappings, b: &MMappings) -> bool {
 }
 
 fn gen_dir(rng: &mut Rng, r: &mut Report, store: &Path) -> DirSpec {
-	let sel = rng.below(100);
+	let sel = rng.below(108);
 	let shape = gen_shape(rng);
 	let n = shape.n;
 	let tricky = rng.chance(1, 8);
@@ -330,6 +377,8 @@ fn gen_dir(rng: &mut Rng, r: &mut Report, store: &Path) -> DirSpec {
 	for i in 1..n {
 		let mut m = maps[shape.tree_parent[i].unwrap()].clone();
 		for _ in 0..rng.below(5) { tdiff::edit(rng, &mut m, &mut |k| counts.push(k.to_owned())); }
+		// every fourth step additionally edits many things inside ONE class at once (its name, its comment, members, parameters)
+		if rng.chance(1, 4) { tdiff::edit_burst(rng, &mut m, &mut |k| counts.push(k.to_owned())); }
 		maps.push(m);
 	}
 	for k in counts { r.count(&k); }
@@ -342,7 +391,9 @@ fn gen_dir(rng: &mut Rng, r: &mut Report, store: &Path) -> DirSpec {
 	files.push(FileSpec { name: format!("{}{TINY}", names[0]), content: root_content });
 	let mut edge_file = |rng: &mut Rng, p: usize, c: usize, target: &MMappings, good: &mut bool, maps: &[MMappings]| -> FileSpec {
 		let content = match tdiff::diff(&maps[p], target, rng.chance(1, 4)) {
-			Ok(d) => { let t = tdiff::print(&d, rng); if !transports(store, &t, &maps[p], target) { *good = false; r.count("edge-file-does-not-transport"); } t }
+			// (whether quill's own reader/apply carry this file from H(p) to H(v) is only counted: what apply_diffs
+			// has to answer is decided by the history alone, see `history-sound` in `through`)
+			Ok(d) => { let t = tdiff::print(&d, rng); if !transports(store, &t, &maps[p], target) { r.count("edge-file-does-not-transport"); } t }
 			Err(_) => { *good = false; r.count("step-not-expressible"); "tiny\t2\t0\n".into() }
 		};
 		FileSpec { name: format!("{}#{}{TINYDIFF}", names[p], names[c]), content }
@@ -380,8 +431,8 @@ fn gen_dir(rng: &mut Rng, r: &mut Report, store: &Path) -> DirSpec {
 			files.push(FileSpec { name: format!("{v}{TINY}"), content: files[0].content.clone() });
 			kind = "two-roots"; hist_ok = false;
 		}
-		70..=77 => { // a cycle: back edge to an ancestor (reachable), a self loop, or a cycle off the root's component
-			let style = rng.below(4);
+		70..=77 | 100..=103 => { // a cycle: back edge to an ancestor (reachable), a self loop, or a cycle off the root's component
+			let style = rng.below(7);
 			let empty = "tiny\t2\t0\n".to_owned();
 			if style == 0 { let i = rng.below(n); files.push(FileSpec { name: format!("{0}#{0}{TINYDIFF}", names[i]), content: empty }); kind = "cycle-self"; }
 			else if style == 1 && n >= 2 {
@@ -392,12 +443,24 @@ fn gen_dir(rng: &mut Rng, r: &mut Report, store: &Path) -> DirSpec {
 				let u = version_name(rng, 40, false); let w = version_name(rng, 41, false);
 				files.push(FileSpec { name: format!("{u}#{w}{TINYDIFF}"), content: empty.clone() });
 				files.push(FileSpec { name: format!("{w}#{u}{TINYDIFF}"), content: empty }); kind = "cycle-unreachable";
-			} else { let i = rng.below(n); files.push(FileSpec { name: format!("{}#{}{TINYDIFF}", names[i], names[0]), content: empty }); kind = "cycle-through-root"; }
+			} else if style == 3 { let i = rng.below(n); files.push(FileSpec { name: format!("{}#{}{TINYDIFF}", names[i], names[0]), content: empty }); kind = "cycle-through-root"; }
+			else if style == 4 && n >= 3 {
+				// a cycle among 2 or 3 arbitrary versions (siblings, cousins, ...): entered from outside at several of its members
+				let k = if n >= 4 && rng.chance(1, 2) { 3 } else { 2 };
+				let mut pool: Vec<usize> = (1..n).collect(); rng.shuffle(&mut pool); pool.truncate(k);
+				for j in 0..k { let (a, b) = (pool[j], pool[(j + 1) % k]); files.push(FileSpec { name: format!("{}#{}{TINYDIFF}", names[a], names[b]), content: empty.clone() }); }
+				kind = "cycle-among-any";
+			} else {
+				// extra edges between arbitrary versions, in any direction: may or may not close a cycle (the reference decides)
+				for _ in 0..rng.range(1, 4) { let (a, b) = (rng.below(n), rng.below(n)); files.push(FileSpec { name: format!("{}#{}{TINYDIFF}", names[a], names[b]), content: empty.clone() }); }
+				kind = "random-extra-edges";
+			}
 			hist_ok = false;
 		}
 		78..=80 => { files.push(FileSpec { name: format!("{}{TINYDIFF}", version_name(rng, 50, false)), content: "tiny\t2\t0\n".into() }); kind = "diff-name-without-hash"; hist_ok = false; }
 		81..=84 => { // unreadable contents
-			match rng.below(3) {
+			match rng.below(4) {
+				3 => { files[0].content = "tiny\t2\t0\tnamed\tofficial\nc\ta\tb\nc\ta$x\tb$y\n".into(); kind = "root-named-namespace-first"; }
 				0 => { files[0].content = "this is not a tiny file\n".into(); kind = "root-garbage"; }
 				1 => { files[0].content = "tiny\t2\t0\tofficial\tintermediary\nc\ta\tb\n".into(); kind = "root-without-named-namespace"; }
 				_ => { if files.len() > 1 { let i = rng.range(1, files.len() - 1); files[i].content = "tiny\t2\t0\nc\n".into(); kind = "diff-garbage"; } }
@@ -415,6 +478,27 @@ fn gen_dir(rng: &mut Rng, r: &mut Report, store: &Path) -> DirSpec {
 			kind = "collision"; hist_ok = false;
 		}
 		90..=93 => { kind = "sloppy-history"; }
+		104..=107 => { // one file's text is disturbed: lines with unknown tags at every nesting level (the readers skip them), a second
+			// comment line, a parameter line with a source name, stray indentation, empty lines
+			let fi = rng.below(files.len());
+			let mut lines: Vec<String> = files[fi].content.split_inclusive('\n').map(|l| l.to_owned()).collect();
+			let indent = |l: &str| l.chars().take_while(|&c| c == '\t').count();
+			let what = rng.below(7);
+			match what {
+				0 | 1 => { for _ in 0..rng.range(1, 4) { let at = rng.range(1, lines.len()); let base = if at > 0 { indent(&lines[at - 1]) } else { 0 }; let k = match rng.below(4) { 0 => base, 1 | 2 => base + 1, _ => base.saturating_sub(1) };
+					lines.insert(at, format!("{}{}\tjunk\tmore\n", "\t".repeat(k), rng.pick(&["x", "v", "#", "cc", "q"][..]))); } }
+				6 => { let cs: Vec<usize> = (0..lines.len()).filter(|&i| lines[i].trim_start_matches('\t').starts_with("c\t") && indent(&lines[i]) >= 1).collect();
+					if cs.is_empty() { lines.push("\tx\ty\n".into()); } else { let i = *rng.pick(&cs[..]); let l = lines[i].clone(); lines.insert(i, l); } }
+				2 => { let ps: Vec<usize> = (0..lines.len()).filter(|&i| lines[i].starts_with("\t\tp\t")).collect();
+					if ps.is_empty() { lines.push("c\tzz\n".into()); lines.push("\tm\t()V\tzz\n".into()); lines.push("\t\tp\t1\tsrc\t\tdst\n".into()); }
+					else { let i = *rng.pick(&ps[..]); let mut cells: Vec<String> = lines[i].trim_end_matches('\n').split('\t').map(|c| c.to_owned()).collect(); if cells.len() > 4 { cells[4] = "src".into(); } else { cells.push("src".into()); } lines[i] = format!("{}\n", cells.join("\t")); } }
+				3 => { lines.insert(1.min(lines.len()), "\tx\ty\n".into()); }
+				4 => { lines.push("\t\t\t\tdeep\n".into()); }
+				_ => { let at = rng.range(1, lines.len()); lines.insert(at, "\n".into()); }
+			}
+			files[fi].content = lines.concat();
+			kind = "mutated-text"; hist_ok = false;
+		}
 		_ => { // files the scanner ignores
 			for nm in ["README.md", "x.tiny.bak", "notes.txt", ".tinydif"] { if rng.chance(1, 2) { files.push(FileSpec { name: nm.into(), content: "ignored".into() }); } }
 			kind = "ignored-files";
@@ -472,6 +556,9 @@ fn through(spec: &DirSpec, scratch: &mut Scratch, rng: &mut Rng, r: &mut Report,
 	let toks: Vec<u64> = spec.files.iter().map(|f| tok(&mut contents, &f.content)).collect();
 	let store = scratch.fresh(0)?;
 	let ndiff = spec.files.iter().filter(|f| f.name.ends_with(TINYDIFF)).count();
+	// quill's reader / contract / apply / extend recurse over the nesting of the texts and over inner-class chains
+	{ let natural: Vec<usize> = (0..spec.files.len()).collect();
+	  crumb(&replay_text(spec, &natural, &[], "the harness process died (stack overflow, abort or time-out) while quill read, contracted, applied or extended the contents of these files")); }
 	let mut tables = Tables::build(&contents, &store, ndiff + 1)?;
 	std::fs::remove_dir_all(&store)?;
 	if tables.capped { r.count("skipped:apply-closure-too-large"); return Ok(()); }
@@ -489,6 +576,9 @@ fn through(spec: &DirSpec, scratch: &mut Scratch, rng: &mut Rng, r: &mut Report,
 		if k > 0 { rng.shuffle(&mut order); }
 		let dir = scratch.fresh(if k == orders - 1 { 1 } else { 0 })?;
 		let listing = materialise(&dir, spec, &order, k == 2, rng)?;
+		// resolve walks a user-supplied graph (one walker per path from the root) and apply_diffs searches it: if
+		// the process dies in there, this text is the failing input
+		crumb(&replay_text(spec, &order, &listing, "the harness process died (stack overflow, abort or time-out) inside VersionGraph::resolve / get / apply_diffs on this directory"));
 		let obs = observe(&dir, &spec.queries);
 		std::fs::remove_dir_all(&dir)?;
 		if !seen_listings.insert(listing.clone()) { r.count("listing-order-repeated"); continue; }
@@ -518,11 +608,18 @@ fn through(spec: &DirSpec, scratch: &mut Scratch, rng: &mut Rng, r: &mut Report,
 			let rootmap = tables.intern(&o.rootmap);
 			let applies: Vec<(String, Option<u64>)> = o.applies.iter().map(|(q, a)| (q.clone(), a.as_ref().map(|m| tables.intern(m)))).collect();
 			let ll = |v: &Vec<Vec<usize>>| glist(v.iter().map(|l| gnums(l.iter().map(|&x| x as u64))));
-			format!("(mkView {} {} {} {} {} {} {})",
+			// diffs are identified by the text of their Debug form
+			let mut dids: Vec<String> = vec![];
+			let did = |x: &String, dids: &mut Vec<String>| -> usize { match dids.iter().position(|y| y == x) { Some(i) => i, None => { dids.push(x.clone()); dids.len() - 1 } } };
+			let tokids: Vec<(u64, usize)> = tables.diff_dbg.iter().map(|(t, x)| (*t, did(x, &mut dids))).collect();
+			let getdiffs = glist(o.getdiffs.iter().map(|(a, b, x)| format!("({a},{b},{})", match x { Err(()) => "Err".to_owned(), Ok(None) => "(Ok None)".to_owned(), Ok(Some(t)) => format!("(Ok (Some {}))", did(t, &mut dids)) })));
+			let getalls = glist(o.getalls.iter().map(|(l, a)| format!("({},{})", gnums(l.iter().map(|q| sid(q) as u64)), gres(a.as_ref().map(|v| glist(v.iter().map(|(s, i)| format!("({s},{i})"))))))));
+			format!("(mkView {} {} {} {} {} {} {} {} {} {})",
 				glist(o.nodes.iter().map(|(n, dep)| format!("({},{})", sid(n), dep))),
 				o.root, rootmap, ll(&o.children), ll(&o.parents),
 				glist(o.gets.iter().map(|(q, g)| format!("({},{})", sid(q), gopt(g.map(|(s, i)| format!("({s},{i})")))))),
-				glist(applies.iter().map(|(q, a)| format!("({},{})", sid(q), gres(a.map(|x| x.to_string()))))))
+				glist(applies.iter().map(|(q, a)| format!("({},{})", sid(q), gres(a.map(|x| x.to_string()))))),
+				getalls, glist(tokids.iter().map(|(t, i)| format!("({t},{i})"))), getdiffs)
 		});
 		// the tables may have grown by interning answers; they are printed after the view is built
 		let case = format!("CDir {} {} {} {} {}", glist(strs.iter().map(|x| gstr(&cps_str(x)))), d, gbool(wf), tables.gallina(), gres(view));
@@ -531,6 +628,40 @@ fn through(spec: &DirSpec, scratch: &mut Scratch, rng: &mut Rng, r: &mut Report,
 		r.case(spec.kind, case);
 		r.count(if obs.is_some() { "resolve:ok" } else { "resolve:err" });
 
+		// ---- oracle on the graph the implementation itself reports (every directory, collisions of lookup names included):
+		// a successful resolve has no cycle that can be reached from the root, depth = breadth-first distance from the
+		// root, parents is the inverse of children, a version that cannot be reached from the root is never answered,
+		// get_all = the gets in order, get_diff reads a file exactly for the edges
+		if let Some(o) = &obs {
+			for what in &o.api_issues { vio(r, what.clone()); }
+			let n = o.nodes.len();
+			let mut dist: Vec<Option<usize>> = vec![None; n]; dist[o.root] = Some(0);
+			let mut q = VecDeque::from([o.root]);
+			while let Some(a) = q.pop_front() { for &b in &o.children[a] { if dist[b].is_none() { dist[b] = Some(dist[a].unwrap() + 1); q.push_back(b); } } }
+			// a cycle among the reachable nodes: repeatedly strip reachable nodes that have no reachable successor left
+			let mut alive: Vec<bool> = dist.iter().map(|d| d.is_some()).collect();
+			loop { let mut ch = false; for a in 0..n { if alive[a] && !o.children[a].iter().any(|&b| alive[b]) { alive[a] = false; ch = true; } } if !ch { break; } }
+			if alive.iter().any(|&x| x) {
+				let on: Vec<&String> = (0..n).filter(|&a| alive[a]).map(|a| &o.nodes[a].0).collect();
+				vio(r, format!("resolve succeeded although the graph it built has a cycle that can be reached from the root {:?} (on or leading to the cycle: {:?})", o.nodes[o.root].0, on));
+			}
+			for a in 0..n { let w = if a == o.root { 0 } else { dist[a].unwrap_or(0) }; if o.nodes[a].1 != w { vio(r, format!("depth of {:?} is {}, its breadth-first distance from the root in the graph resolve built is {w}", o.nodes[a].0, o.nodes[a].1)); } }
+			let mut inv: Vec<Vec<usize>> = vec![vec![]; n];
+			for a in 0..n { for &b in &o.children[a] { inv[b].push(a); } }
+			for b in 0..n { let mut x = inv[b].clone(); x.sort(); let mut y = o.parents[b].clone(); y.sort(); if x != y { vio(r, format!("parents of {:?} are not the nodes that list it as a child", o.nodes[b].0)); } }
+			for ((qn, a), (_, g)) in o.applies.iter().zip(o.gets.iter()) {
+				if let Some((_, i)) = g { if dist[*i].is_none() && a.is_some() { vio(r, format!("apply_diffs({qn:?}) answered for {:?}, which cannot be reached from the root in the graph resolve built", o.nodes[*i].0)); } }
+			}
+			for (l, a) in &o.getalls {
+				let want: Option<Vec<(u8, usize)>> = l.iter().map(|qn| o.gets.iter().find(|g| &g.0 == qn).and_then(|g| g.1)).collect();
+				if &want != a { vio(r, format!("get_all({l:?}) = {a:?}, the single gets give {want:?}")); }
+			}
+			for (a, b, x) in &o.getdiffs {
+				let edge = o.children[*a].contains(b);
+				if matches!(x, Ok(None)) == edge { vio(r, format!("get_diff({:?}, {:?}) {} although there is {} edge", o.nodes[*a].0, o.nodes[*b].0, if edge { "finds nothing" } else { "reads a file" }, if edge { "an" } else { "no" })); }
+			}
+			r.count("oracle:own-graph-consistent");
+		}
 		// ---- property oracle (well-formed directories)
 		if !wf { continue; }
 		let root_tok = refg.roots.first().map(|(_, i)| toks[*i]);
@@ -596,7 +727,14 @@ fn through(spec: &DirSpec, scratch: &mut Scratch, rng: &mut Rng, r: &mut Report,
 					let hv = &h.maps[h.names.iter().position(|x| x == v).expect("version of the history")];
 					let want = tdiff::ref_extend(hv);
 					let same = match (&want, a) { (Some(w), Some(m)) => { let mut ds = vec![]; from_quill(m, &mut ds).equiv(w) } (None, None) => true, _ => false };
-					if !same { vio(r, format!("apply_diffs({q:?}) differs from the inner-class-extended mapping set the history has for version {v:?}")); }
+					if !same {
+						let what = format!("apply_diffs({q:?}) differs from the inner-class-extended mapping set the history has for version {v:?}");
+						let show = |t: Option<String>| t.unwrap_or_else(|| "(an error)\n".into());
+						let mut t = replay_text(spec, &order, &listing, &what);
+						t.push_str(&format!("--- expected for version {v:?}: the history's mapping set with inner class names extended\n{}--- apply_diffs({q:?}) answered\n{}",
+							show(want.as_ref().and_then(plain_text)), show(a.as_ref().and_then(|m| quill::tiny_v2::write_string(m).ok()))));
+						r.violation(what, t);
+					}
 					r.count("oracle:history-sound");
 				}
 			}
@@ -661,7 +799,7 @@ pub fn run(ctx: &Ctx) -> anyhow::Result<Report> {
 	let mut rng = Rng::new(ctx.seed);
 	let mut scratch = Scratch::new(ctx.seed)?;
 	let repo = PathBuf::from(std::env::var("VERIF_REPO").unwrap_or_else(|_| "/repo".into()));
-	r.rule = "directories = rooted version graphs (chains, trees, DAGs with diamonds and shortcuts, confluent and non-confluent; plain and client~server names, tricky names) x edit histories on mapping sets (renames, additions, removals, comment edits at class/field/method/parameter level; edge files printed by the harness' own .tinydiff printer, root file written by quill) x file-creation orders (3-4 per directory: as generated, shuffled, shuffled with renames, and one on a second file system), plus the malformed shapes (no root, two roots, reachable/unreachable cycles, unreachable versions, unknown names, bad file names, unreadable contents) and lookup-name collisions. One correspondence case per distinct listing order actually observed through read_dir. Non-trivial = resolve succeeds with at least two nodes; distinct by (listing order, contents). Stream `instantiated`: every 12th (quick) / 20th (thorough) directory and the repository's fixture additionally as a CInst case — the real file contents as code points, evaluated by the INSTANTIATED model (C03 read, C11 contract/extend, C04 .tinydiff read/apply composed exactly as resolve/apply_diffs do) and compared with resolve's Ok/Err and with apply_diffs of every lookup name up to map order.".into();
+	r.rule = "directories = rooted version graphs (chains, trees, DAGs with diamonds and shortcuts, confluent and non-confluent; plain and client~server names, tricky names) x edit histories on mapping sets (renames, additions, removals, comment edits at class/field/method/parameter level; edge files printed by the harness' own .tinydiff printer, root file written by quill) x file-creation orders (3-4 per directory: as generated, shuffled, shuffled with renames, and one on a second file system), plus the malformed shapes (no root, two roots, reachable/unreachable cycles, unreachable versions, unknown names, bad file names, unreadable contents) cycles among arbitrary versions (entered from outside at several members), extra edges between arbitrary versions in any direction, graphs of up to 10 versions, steps that edit many things below ONE class at once (name given or changed + comments + members + parameters in the same edge file), disturbed texts (lines with unknown tags at every nesting level, a second comment line, a parameter line with a source name, stray indentation, empty lines; these and the unreadable-root shapes always also as CInst), names ending in -client/-server, and lookup-name collisions. Every case also carries get_all of several name lists and get_diff of every node pair. Oracle: what apply_diffs must answer for a version of a good history is decided by the history alone (the harness' own diff, printer and inner-class extension; quill is not consulted), resolve must fail exactly on the malformed shapes (reference cycle search on the file names), and on EVERY directory (collisions included) the graph resolve reports about itself must be consistent: no cycle reachable from the root, depth = breadth-first distance, parents = inverse of children, unreachable versions never answered, get_all = the gets, get_diff = the edges. One correspondence case per distinct listing order actually observed through read_dir. Non-trivial = resolve succeeds with at least two nodes; distinct by (listing order, contents). Stream `instantiated`: every 12th (quick) / 20th (thorough) directory and the repository's fixture additionally as a CInst case — the real file contents as code points, evaluated by the INSTANTIATED model (C03 read, C11 contract/extend, C04 .tinydiff read/apply composed exactly as resolve/apply_diffs do) and compared with resolve's Ok/Err and with apply_diffs of every lookup name up to map order.".into();
 	r.notes.push(format!("scratch directories: {:?} (removed at exit)", scratch.bases));
 	if let Some(path) = &ctx.replay {
 		// a replay file written by an earlier run: the files between the `--- "name"` markers
@@ -679,7 +817,8 @@ pub fn run(ctx: &Ctx) -> anyhow::Result<Report> {
 		let store = scratch.fresh(0)?;
 		let spec = gen_dir(&mut rng, &mut r, &store);
 		std::fs::remove_dir_all(&store)?;
-		through(&spec, &mut scratch, &mut rng, &mut r, 4, i % every == 0)?;
+		// (disturbed texts always: only the instantiated model reads the text itself)
+		through(&spec, &mut scratch, &mut rng, &mut r, 4, i % every == 0 || spec.kind == "mutated-text" || spec.kind.starts_with("root-"))?;
 	}
 	Ok(r)
 }
